@@ -399,7 +399,7 @@ def run(tier):
         explanation=("Decides the structural clauses for every move list and session at once: the new position is built on a scratch board from the start position or from_fen(fen) and never reads the "
                      "session board (independence from earlier commands); the only write is one `self.board = scratch` after the loop, on every Ok path and on no Err path, and a rejected move leads to an "
                      "Err return that bypasses it (all-or-nothing); each token is looked up among the legal moves by exact equality of coordinate notation and the matched move is the one played on the "
-                     "scratch board, for all tokens in order; the notation is {start}{dest} plus q/r/b/n; the FEN is tokens 1..7 and the moves start after the `moves` keyword; the Position arm propagates the "
+                     "scratch board, for all tokens in order; the notation is {start}{dest} plus q/r/b/n; the FEN is tokens 1..7 and the moves start after the `moves` keyword; the move tokens are handed on as written (identity conversions only) and a command that names a position is never refused (Err only for a missing / unknown keyword or fewer than six FEN fields); the Position arm propagates the "
                      "error and ucinewgame installs a fresh start board; go searches that board; every argument-list length with at least one move reaches the move slice. The legal-move list (C01, C06) and "
                      "make_move (C03) are re-decided as premises; their value-level remainder (exactness of the generated sets) is not decided."),
         assumptions=["Board::get_legal_moves is exact (C01)", "FEN arguments are valid"],
